@@ -690,6 +690,18 @@ def c13_history(variant, fails, samples):
         if r.before != r.after or r.rc != 0:
             fail(None, "S7 rerun all flags", f"rc={r.rc} diff={diff_trees(r.before, r.after)}\n" + tail(r.out, 20),
                  "assert r['before'] == r['after'] and r['rc'] == 0, r['rc']")
+        # S8 the configured hash-length changes after the reference was written (longer, then shorter): the reference in the test file
+        # keeps its old length and still protects its file from an approved trim
+        if hlen < 58:
+            for new_hl in (hlen + 6, max(hlen - 4, 4)):
+                cur = hist.p.tree()["pyproject.toml"].decode()
+                cur = re.sub(r"hash-length = \d+\n", "", cur) + f"hash-length = {new_hl}\n"
+                hist.write({"pyproject.toml": cur})
+                r = hist.run(["--inline-snapshot=trim"])
+                st = stored(r.after)
+                if st != {h[2] + suffix: raw[2]} or r.after["test_e.py"] != r.before["test_e.py"]:
+                    fail(None, f"S8 trim after hash-length {hlen} -> {new_hl}", f"storage = {sorted(st)}; expected exactly {h[2] + suffix} (still referenced by {ref(2)})\n" + tail(r.out, 20),
+                         f"assert ext(r['after']) == {({h[2] + suffix: raw[2]})!r}, sorted(ext(r['after']))")
         samples.append(f"C13 history {desc0}: create -> rerun -> edit+report -> edit+short-report -> fix -> "
                        f"{len(probes)} no-trim probes -> trim -> rerun")
     except (_Abort, Skipped):
